@@ -429,3 +429,44 @@ Fixpoint log_complete (r : tid) (log : list rec) : list N :=
       (if Nat.eqb t r then complete_events evs else []) ++ log_complete r log
   | _ :: log => log_complete r log
   end.
+
+(* ---- Part 6: the scheduling rule of the oracle against the queue ----------- *)
+
+(* Two small machines driven by the same operations: the declarative
+   scheduler the oracle uses ("oldest wake-up first, each task at most once",
+   with time stamps: [o_wake]-like insertion, [oldest], [pend_del]) and the
+   implementation's queue (Task::wake, pop_front). *)
+Inductive qop := QWake (t : tid) | QTake.
+
+(* the declarative scheduler of the oracle: per woken task the time of its
+   first wake-up since it was last taken *)
+Definition sstate := (nat * list (tid * nat))%type.
+
+Definition s_step (s : sstate) (o : qop) : sstate * option tid :=
+  let (c, p) := s in
+  match o with
+  | QWake t => if pend_mem t p then (s, None) else ((S c, (t, c) :: p), None)
+  | QTake => match oldest p with
+             | None => (s, None)
+             | Some (u, _) => ((c, pend_del u p), Some u)
+             end
+  end.
+
+(* the implementation: Task::wake and pop_front on the wake queue *)
+Definition q_step (q : list tid) (o : qop) : list tid * option tid :=
+  match o with
+  | QWake t => (if mem t q then q else q ++ [t], None)
+  | QTake => match q with [] => ([], None) | t :: q => (q, Some t) end
+  end.
+
+Fixpoint s_run (s : sstate) (ops : list qop) : list (option tid) :=
+  match ops with
+  | [] => []
+  | o :: ops => let (s', out) := s_step s o in out :: s_run s' ops
+  end.
+
+Fixpoint q_run (q : list tid) (ops : list qop) : list (option tid) :=
+  match ops with
+  | [] => []
+  | o :: ops => let (q', out) := q_step q o in out :: q_run q' ops
+  end.
